@@ -29,6 +29,9 @@ type c12Input struct {
 	Bool bool `json:"bool,omitempty"`
 	// Parens: redundant pairs of parentheses around each operand of the outermost operation.
 	Parens int `json:"parens,omitempty"`
+	// Grid (with Range): "" = four steps of 5 s; "long" = ten steps of 5 s, the last ones long after the last record
+	// has left every window; "fine" = eight steps of 1 s (consecutive steps whose windows hold the same records)
+	Grid string `json:"grid,omitempty"`
 }
 
 // sample seconds per (side, a): chosen so that the three steps see different counts (including none)
@@ -47,7 +50,7 @@ func c12Build(in c12Input) ([]mockq.Rec, refmodel.Expr) {
 	add := func(side string, as []int) {
 		for _, a := range as {
 			for _, s := range c12Times[side+strconv.Itoa(a)] {
-				data = append(data, mockq.Rec{TS: (c09Base + int64(s)) * sec, Line: "", Labels: []mockq.KV{{K: "side", V: side}, {K: "a", V: strconv.Itoa(a)}, {K: "b", V: "k" + strconv.Itoa(a%2)}}})
+				data = append(data, mockq.Rec{TS: (c09Base + int64(s)) * sec, Line: "xy", Labels: []mockq.KV{{K: "side", V: side}, {K: "a", V: strconv.Itoa(a)}, {K: "b", V: "k" + strconv.Itoa(a%2)}}})
 			}
 		}
 	}
@@ -126,6 +129,18 @@ func c12Build(in c12Input) ([]mockq.Rec, refmodel.Expr) {
 			return data, &refmodel.Bin{Op: in.Op, L: mk("L", by), R: mk("R", wo)}
 		}
 		return data, &refmodel.Bin{Op: in.Op, L: mk("L", wo), R: mk("R", by)}
+	case "cb": // the same selection and range under two different range functions (lines counted, bytes added up)
+		mk := func(op string) refmodel.Expr {
+			return &refmodel.VecAgg{Op: "sum", Grouping: &refmodel.Grouping{Labels: []string{"a"}},
+				X: &refmodel.RangeAgg{Op: op, Sel: []refmodel.Matcher{{Label: "side", Op: "=", Value: "L"}}, RangeNS: 10 * sec}}
+		}
+		pairs := [][2]string{{"count_over_time", "bytes_over_time"}, {"bytes_over_time", "count_over_time"}, {"rate", "bytes_rate"}, {"count_over_time", "rate"}}
+		pr := pairs[int(in.S)%len(pairs)]
+		return data, &refmodel.Bin{Op: in.Op, L: mk(pr[0]), R: mk(pr[1])}
+	case "rs": // a literal applied to a range aggregation directly, no vector aggregation in between
+		return data, &refmodel.Bin{Op: in.Op, L: &refmodel.RangeAgg{Op: "count_over_time", Sel: []refmodel.Matcher{{Label: "side", Op: "=", Value: "L"}}, RangeNS: 10 * sec}, R: &refmodel.Lit{V: in.S}, Bool: in.Bool}
+	case "sr":
+		return data, &refmodel.Bin{Op: in.Op, L: &refmodel.Lit{V: in.S}, R: &refmodel.RangeAgg{Op: "count_over_time", Sel: []refmodel.Matcher{{Label: "side", Op: "=", Value: "L"}}, RangeNS: 10 * sec}, Bool: in.Bool}
 	case "setset": // both operands are set operations themselves (each may come out empty, or as one of its own operands)
 		inner := [][2]string{{"or", "or"}, {"or", "unless"}, {"unless", "or"}, {"and", "or"}, {"or", "and"}}[int(in.S)%5]
 		lo := &refmodel.Bin{Op: inner[0], L: l, R: &refmodel.Vec{V: 0}}
@@ -177,6 +192,12 @@ func c12Check(r *vkit.Run, in c12Input) bool {
 	end, step := start, int64(0)
 	if in.Range {
 		end, step = start+15*sec, 5*sec
+		switch in.Grid {
+		case "long":
+			end = start + 45*sec
+		case "fine":
+			end, step = start+7*sec, sec
+		}
 	}
 	times := gridTimes(start, end, step)
 	res := evalEngine(mockq.New(data), expr.Text(), start, end, time.Duration(step))
@@ -211,6 +232,12 @@ func c12CheckBoolPair(r *vkit.Run, in c12Input) bool {
 	end, step := start, int64(0)
 	if in.Range {
 		end, step = start+15*sec, 5*sec
+		switch in.Grid {
+		case "long":
+			end = start + 45*sec
+		case "fine":
+			end, step = start+7*sec, sec
+		}
 	}
 	times := gridTimes(start, end, step)
 	plain, withBool := in, in
@@ -260,6 +287,12 @@ func c12CheckOrders(r *vkit.Run, in c12Input, replay []int) {
 	end, step := start, int64(0)
 	if in.Range {
 		end, step = start+15*sec, 5*sec
+		switch in.Grid {
+		case "long":
+			end = start + 45*sec
+		case "fine":
+			end, step = start+7*sec, sec
+		}
 	}
 	times := gridTimes(start, end, step)
 	expZ, _, _, _ := expectGrid(expr, data, times, refmodel.Convention{FalseIsZero: true})
@@ -392,6 +425,32 @@ func c12Run(r *vkit.Run) {
 					for k := 0; k < 10; k++ {
 						c12Check(r, c12Input{L: l, R: rr, Op: op, Kind: "setset", S: float64(k), Range: rg})
 					}
+				}
+				for _, op := range all {
+					for k := 0; k < 4; k++ {
+						c12Check(r, c12Input{L: l, R: rr, Op: op, Kind: "cb", S: float64(k), Range: rg})
+					}
+				}
+				if rg {
+					// grids that go on long after the data has ended, and grids finer than the windows
+					for _, grid := range []string{"long", "fine"} {
+						for _, op := range all {
+							for _, kind := range []string{"lab-v", "v-lab", "nv", "vn", "vv"} {
+								c12Check(r, c12Input{L: l, R: rr, Op: op, Kind: kind, S: 1, RVar: 2, Range: true, Grid: grid})
+							}
+						}
+						for _, op := range arith {
+							for _, s := range []float64{2, 0.5} {
+								c12Check(r, c12Input{L: l, R: rr, Op: op, Kind: "rs", S: s, Range: true, Grid: grid})
+								c12Check(r, c12Input{L: l, R: rr, Op: op, Kind: "sr", S: s, Range: true, Grid: grid})
+								c12Check(r, c12Input{L: l, R: rr, Op: op, Kind: "vs", S: s, Range: true, Grid: grid})
+							}
+						}
+					}
+				}
+				for _, op := range arith {
+					c12Check(r, c12Input{L: l, R: rr, Op: op, Kind: "rs", S: 2, Range: rg})
+					c12Check(r, c12Input{L: l, R: rr, Op: op, Kind: "sr", S: 2, Range: rg})
 				}
 				for _, op := range all {
 					for k := 0; k < 2; k++ {
